@@ -71,6 +71,7 @@ type Term struct {
 }
 
 type TermStore struct {
+	facts  map[*Term]bool // truth values implied by the path condition (learned from assumptions)
 	tab    map[string]*Term
 	nextID int
 	True   *Term
@@ -79,7 +80,7 @@ type TermStore struct {
 }
 
 func NewTermStore() *TermStore {
-	ts := &TermStore{tab: map[string]*Term{}, ufSigs: map[string][]int{}}
+	ts := &TermStore{tab: map[string]*Term{}, ufSigs: map[string][]int{}, facts: map[*Term]bool{}}
 	ts.True = ts.mk(&Term{op: OpConst, w: 0, val: 1})
 	ts.False = ts.mk(&Term{op: OpConst, w: 0, val: 0})
 	return ts
@@ -179,49 +180,92 @@ func (ts *TermStore) splitAdd(t *Term) (*Term, uint64) {
 	return t, 0
 }
 
+// linear normal form for +, -, unary minus: sum of coeff*atom + const (mod 2^w).
+type linComb struct {
+	atoms map[*Term]uint64
+	c     uint64
+}
+
+func (ts *TermStore) linAdd(lc *linComb, t *Term, k uint64, depth int) {
+	switch {
+	case t.op == OpConst:
+		lc.c += k * t.val
+	case t.op == OpAdd && depth < 64:
+		ts.linAdd(lc, t.args[0], k, depth+1)
+		ts.linAdd(lc, t.args[1], k, depth+1)
+	case t.op == OpSub && depth < 64:
+		ts.linAdd(lc, t.args[0], k, depth+1)
+		ts.linAdd(lc, t.args[1], -k, depth+1)
+	case t.op == OpNeg && depth < 64:
+		ts.linAdd(lc, t.args[0], -k, depth+1)
+	default:
+		lc.atoms[t] += k
+	}
+}
+
+func (ts *TermStore) linBuild(lc *linComb, w int) *Term {
+	type ak struct {
+		t *Term
+		k uint64
+	}
+	var pos, neg []ak
+	m := mask(w)
+	for t, k := range lc.atoms {
+		k &= m
+		if k == 0 {
+			continue
+		}
+		// coefficients in the upper half are treated as negative
+		if k > m/2 {
+			neg = append(neg, ak{t, (-k) & m})
+		} else {
+			pos = append(pos, ak{t, k})
+		}
+	}
+	sort.Slice(pos, func(i, j int) bool { return pos[i].t.id < pos[j].t.id })
+	sort.Slice(neg, func(i, j int) bool { return neg[i].t.id < neg[j].t.id })
+	scaled := func(a ak) *Term {
+		if a.k == 1 {
+			return a.t
+		}
+		return ts.Mul(a.t, ts.Const(w, a.k))
+	}
+	var r *Term
+	for _, a := range pos {
+		x := scaled(a)
+		if r == nil {
+			r = x
+		} else {
+			r = ts.mk(&Term{op: OpAdd, w: w, args: []*Term{r, x}})
+		}
+	}
+	for _, a := range neg {
+		x := scaled(a)
+		if r == nil {
+			r = ts.mk(&Term{op: OpNeg, w: w, args: []*Term{x}})
+		} else {
+			r = ts.mk(&Term{op: OpSub, w: w, args: []*Term{r, x}})
+		}
+	}
+	c := lc.c & m
+	if r == nil {
+		return ts.Const(w, c)
+	}
+	if c != 0 {
+		r = ts.mk(&Term{op: OpAdd, w: w, args: []*Term{r, ts.Const(w, c)}})
+	}
+	return r
+}
+
 func (ts *TermStore) Add(a, b *Term) *Term {
 	w := a.w
 	if a.op == OpConst && b.op == OpConst {
 		return ts.Const(w, a.val+b.val)
 	}
-	ab, ac := ts.splitAdd(a)
-	bb, bc := ts.splitAdd(b)
-	c := (ac + bc) & mask(w)
-	var base *Term
-	switch {
-	case ab == nil:
-		base = bb
-	case bb == nil:
-		base = ab
-	default:
-		// a - x + x patterns
-		if ab.op == OpSub && ab.args[1] == bb {
-			base = ab.args[0]
-		} else if bb.op == OpSub && bb.args[1] == ab {
-			base = bb.args[0]
-		} else if ab.op == OpNeg && ab.args[0] == bb || bb.op == OpNeg && bb.args[0] == ab {
-			return ts.Const(w, c)
-		} else {
-			if ab.id > bb.id {
-				ab, bb = bb, ab
-			}
-			base = ts.mk(&Term{op: OpAdd, w: w, args: []*Term{ab, bb}})
-		}
-	}
-	if base == nil {
-		return ts.Const(w, c)
-	}
-	if c == 0 {
-		return base
-	}
-	if base.op == OpConst {
-		return ts.Const(w, base.val+c)
-	}
-	bb2, bc2 := ts.splitAdd(base)
-	if bc2 != 0 {
-		return ts.Add(bb2, ts.Const(w, bc2+c))
-	}
-	return ts.mk(&Term{op: OpAdd, w: w, args: []*Term{base, ts.Const(w, c)}})
+	lc := &linComb{atoms: map[*Term]uint64{}}
+	ts.linAdd(lc, a, 1, 0)
+	ts.linAdd(lc, b, 1, 0)
+	return ts.linBuild(lc, w)
 }
 
 func (ts *TermStore) Sub(a, b *Term) *Term {
@@ -229,39 +273,22 @@ func (ts *TermStore) Sub(a, b *Term) *Term {
 	if a == b {
 		return ts.Const(w, 0)
 	}
-	if b.op == OpConst {
-		return ts.Add(a, ts.Const(w, -b.val))
+	if a.op == OpConst && b.op == OpConst {
+		return ts.Const(w, a.val-b.val)
 	}
-	ab, ac := ts.splitAdd(a)
-	bb, bc := ts.splitAdd(b)
-	c := (ac - bc) & mask(w)
-	if ab == bb {
-		return ts.Const(w, c)
-	}
-	var base *Term
-	if ab == nil {
-		base = ts.Neg(bb)
-	} else if ab.op == OpAdd && ab.args[1] == bb {
-		base = ab.args[0]
-	} else if ab.op == OpAdd && ab.args[0] == bb {
-		base = ab.args[1]
-	} else {
-		base = ts.mk(&Term{op: OpSub, w: w, args: []*Term{ab, bb}})
-	}
-	if c == 0 {
-		return base
-	}
-	return ts.Add(base, ts.Const(w, c))
+	lc := &linComb{atoms: map[*Term]uint64{}}
+	ts.linAdd(lc, a, 1, 0)
+	ts.linAdd(lc, b, ^uint64(0), 0)
+	return ts.linBuild(lc, w)
 }
 
 func (ts *TermStore) Neg(a *Term) *Term {
 	if a.op == OpConst {
 		return ts.Const(a.w, -a.val)
 	}
-	if a.op == OpNeg {
-		return a.args[0]
-	}
-	return ts.mk(&Term{op: OpNeg, w: a.w, args: []*Term{a}})
+	lc := &linComb{atoms: map[*Term]uint64{}}
+	ts.linAdd(lc, a, ^uint64(0), 0)
+	return ts.linBuild(lc, a.w)
 }
 
 func (ts *TermStore) Mul(a, b *Term) *Term {
@@ -528,19 +555,6 @@ func (ts *TermStore) Extract(t *Term, hi, lo int) *Term {
 				return ts.Or(a, b)
 			default:
 				return ts.Xor(a, b)
-			}
-		}
-	case OpAdd, OpSub, OpMul:
-		if lo == 0 {
-			a := ts.Extract(t.args[0], hi, 0)
-			b := ts.Extract(t.args[1], hi, 0)
-			switch t.op {
-			case OpAdd:
-				return ts.Add(a, b)
-			case OpSub:
-				return ts.Sub(a, b)
-			default:
-				return ts.Mul(a, b)
 			}
 		}
 	case OpIte:
@@ -920,6 +934,12 @@ func (ts *TermStore) BNot(a *Term) *Term {
 	return ts.mk(&Term{op: OpBNot, w: 0, args: []*Term{a}})
 }
 func (ts *TermStore) BAnd(a, b *Term) *Term {
+	if k, ok := ts.known(a); ok {
+		a = k
+	}
+	if k, ok := ts.known(b); ok {
+		b = k
+	}
 	if a.IsFalse() || b.IsFalse() {
 		return ts.False
 	}
@@ -935,6 +955,12 @@ func (ts *TermStore) BAnd(a, b *Term) *Term {
 	return ts.mk(&Term{op: OpBAnd, w: 0, args: []*Term{a, b}})
 }
 func (ts *TermStore) BOr(a, b *Term) *Term {
+	if k, ok := ts.known(a); ok {
+		a = k
+	}
+	if k, ok := ts.known(b); ok {
+		b = k
+	}
 	if a.IsTrue() || b.IsTrue() {
 		return ts.True
 	}
@@ -951,7 +977,76 @@ func (ts *TermStore) BOr(a, b *Term) *Term {
 }
 func (ts *TermStore) Implies(a, b *Term) *Term { return ts.BOr(ts.BNot(a), b) }
 
+// Learn records what an assumed condition implies about other boolean terms.
+func (ts *TermStore) Learn(c *Term) {
+	if c.w != 0 || c.op == OpConst {
+		return
+	}
+	ts.facts[c] = true
+	switch c.op {
+	case OpBNot:
+		ts.learnFalse(c.args[0])
+	case OpBAnd:
+		ts.Learn(c.args[0])
+		ts.Learn(c.args[1])
+	case OpUlt:
+		// a < b  =>  b != 0, a != b, not (b < a)
+		ts.setFact(ts.Eq(c.args[1], ts.Const(c.args[1].w, 0)), false)
+		ts.setFact(ts.Eq(c.args[0], c.args[1]), false)
+		ts.setFact(ts.Ult(c.args[1], c.args[0]), false)
+	case OpSlt:
+		ts.setFact(ts.Eq(c.args[0], c.args[1]), false)
+		ts.setFact(ts.Slt(c.args[1], c.args[0]), false)
+	}
+}
+
+func (ts *TermStore) learnFalse(c *Term) {
+	ts.setFact(c, false)
+	switch c.op {
+	case OpBOr:
+		ts.learnFalse(c.args[0])
+		ts.learnFalse(c.args[1])
+	case OpBNot:
+		ts.Learn(c.args[0])
+	case OpEq:
+		// a != 0 (unsigned): 0 < a
+		if c.args[0].w > 0 {
+			for i := 0; i < 2; i++ {
+				if k := c.args[i]; k.op == OpConst && k.val == 0 {
+					ts.setFact(ts.Ult(k, c.args[1-i]), true)
+				}
+			}
+		}
+	}
+}
+
+func (ts *TermStore) setFact(c *Term, v bool) {
+	if c.op == OpConst {
+		return
+	}
+	if c.op == OpBNot {
+		ts.facts[c.args[0]] = !v
+		return
+	}
+	ts.facts[c] = v
+}
+
+func (ts *TermStore) known(c *Term) (*Term, bool) {
+	if v, ok := ts.facts[c]; ok {
+		return ts.Bool(v), true
+	}
+	if c.op == OpBNot {
+		if v, ok := ts.facts[c.args[0]]; ok {
+			return ts.Bool(!v), true
+		}
+	}
+	return nil, false
+}
+
 func (ts *TermStore) Ite(c, a, b *Term) *Term {
+	if k, ok := ts.known(c); ok {
+		c = k
+	}
 	if c.IsTrue() {
 		return a
 	}
